@@ -1,3 +1,105 @@
 import Cppcms.Common
-/-! Line-protocol driver for C12 (stub: model not written yet). -/
-def main : IO Unit := Cppcms.lineLoop () (fun s _ => (s, "unimplemented"))
+import Cppcms.C12.Model
+import Cppcms.C12.Spec
+/-! Line-protocol driver for C12.
+
+* `mp <contentType> <memLimit|-1> <diskOk> <chunk>*` : `multipart_parser` driven as the repo's own test
+  does; one token `res/consumed/hasFile/size` per `consume` call, then `F` and the finished files.
+* `ct <bytes>` : `http::content_type` : media type and parameters.
+* `form <bytes>` : `parse_form_urlencoded` : return value and the pairs inserted.
+* `rq <contentType> <cl> <contentLimit> <multipartLimit> <memLimit> <diskOk> <chunk>*` : whole request.
+* `enc <bkey> (<name> <filename> <mime> <data>)*` : `Spec.encode`.
+* `encform (<k> <v>)*` : `Spec.encodeForm`.
+All byte strings in hex (`-` = empty). -/
+open Cppcms Cppcms.C12
+
+def hexList (l : List String) : Option (List Bytes) := l.mapM parseHex
+
+def partStr (f : Part) : String :=
+  s!"{toHex f.name},{toHex f.filename},{toHex f.mime},{toHex f.data}"
+
+def pairsStr (l : List (Bytes × Bytes)) : String :=
+  if l.isEmpty then "-" else ";".intercalate (l.map fun (k, v) => s!"{toHex k}={toHex v}")
+
+def filesStr (l : List Part) : String :=
+  if l.isEmpty then "-" else ";".intercalate (l.map partStr)
+
+/-- feed one chunk: tokens for each consume call; `none` state = stop (error) -/
+def mpChunk (cfg : PCfg) : Nat → P → Bytes → List String → (Option P) × List String
+  | 0, p, _, acc => (some p, acc)
+  | fuel + 1, p, buf, acc =>
+    if buf.isEmpty then (some p, acc) else
+    let (r, p', rest) := consume cfg p buf
+    let consumed := buf.length - rest.length
+    let size := match r with
+      | .contentReady => (match p'.filesRev with | f :: _ => f.data.length | [] => 0)
+      | .metaReady | .contentPartial => p'.dataRev.length
+      | _ => 0
+    let tok := s!"{r.idx}/{consumed}/{boolStr p'.fileReady}/{size}"
+    match r with
+    | .metaReady | .contentPartial | .contentReady | .continueInput | .eof => mpChunk cfg fuel p' rest (tok :: acc)
+    | _ => (none, tok :: acc)
+
+def mpRun (cfg : PCfg) : P → List Bytes → List String → P × List String
+  | p, [], acc => (p, acc)
+  | p, c :: cs, acc =>
+    match mpChunk cfg (c.length + 1) p c acc with
+    | (some p', acc') => mpRun cfg p' cs acc'
+    | (none, acc') => (p, acc')
+
+def parseParts : List Bytes → Option (List Part)
+  | [] => some []
+  | n :: f :: m :: d :: rest => (parseParts rest).map fun l => { name := n, filename := f, mime := m, data := d } :: l
+  | _ => none
+
+def parsePairs : List Bytes → Option (List (Bytes × Bytes))
+  | [] => some []
+  | k :: v :: rest => (parsePairs rest).map fun l => (k, v) :: l
+  | _ => none
+
+def seenStr : Seen → String
+  | .refused code => s!"status {code}"
+  | .waiting => "waiting"
+  | .handled post files => s!"status 200 post {pairsStr post} files {filesStr files}"
+
+def step (_ : Unit) (line : String) : Unit × String :=
+  let r : String :=
+    match words line with
+    | "mp" :: ct :: mem :: disk :: chunks =>
+      match parseHex ct, mem.toInt?, hexList chunks with
+      | some ct, some mem, some chunks =>
+        (match mkBoundary ct with
+         | none => "noboundary"
+         | some b =>
+           let cfg : PCfg := { boundary := b, memLimit := if mem < 0 then 0 else mem.toNat, diskOk := disk == "1" }
+           let (p, toks) := mpRun cfg {} chunks []
+           " ".intercalate toks.reverse ++ " F " ++ filesStr p.files)
+      | _, _, _ => "bad-op"
+    | ["ct", h] =>
+      match parseHex h with
+      | some s =>
+        let (mt, rest) := mediaTypeRest s
+        let ps := if mt.isEmpty then [] else ctParams rest.length rest []
+        s!"{toHex mt} {pairsStr (mmOfList ps)}"
+      | none => "bad-op"
+    | ["form", h] =>
+      match parseHex h with
+      | some s => let (pairs, ok) := parseForm s; s!"{boolStr ok} {pairsStr (mmOfList pairs)}"
+      | none => "bad-op"
+    | "rq" :: ct :: cl :: climit :: mlimit :: mem :: disk :: chunks =>
+      match parseHex ct, cl.toNat?, climit.toNat?, mlimit.toNat?, mem.toNat?, hexList chunks with
+      | some ct, some cl, some climit, some mlimit, some mem, some chunks =>
+        seenStr (request { contentLimit := climit, multipartLimit := mlimit, memLimit := mem, diskOk := disk == "1" } ct cl chunks)
+      | _, _, _, _, _, _ => "bad-op"
+    | "enc" :: bkey :: parts =>
+      match parseHex bkey, (hexList parts).bind parseParts with
+      | some b, some ps => toHex (Spec.encode b ps)
+      | _, _ => "bad-op"
+    | "encform" :: kvs =>
+      match (hexList kvs).bind parsePairs with
+      | some l => toHex (Spec.encodeForm l)
+      | none => "bad-op"
+    | _ => "bad-op"
+  ((), r)
+
+def main : IO Unit := lineLoop () step
